@@ -336,3 +336,390 @@ def o_C13(h):
     return out
 
 ORACLES = {"C01": o_C01, "C02": o_C02, "C03": o_C03, "C04": o_C04, "C05": o_C05, "C07": o_C07, "C13": o_C13}
+
+# =====================================================================================
+# population tracking, reference specification and the remaining oracles
+
+def track_population(h):
+    """agent -> (kind 'S'|'R', stream) over time; returns events list and final maps.
+    Adds to h: h.pop_events = [(step, what, agent, stream)], h.agent_kind."""
+    kind = {0: "S", 1: "R"}
+    stream = {1: 0}
+    alive = {0: True, 1: True}
+    events = []
+    new_stream_of_call = {}
+    # stream created inside a call: last alloc p<ns> followed by a successful pcas in that call
+    for c in h.calls:
+        ns, okc = None, False
+        for (stno, kindop, loc, aa, bb, rr, okf) in c.ops:
+            if kindop == "pcas" and loc == "readers" and okf == "1":
+                okc = True
+        if c.name in ("addstream", "intomulti", "transform") and okc:
+            # find ns from the steps of the call
+            for st in h.steps:
+                if st.agent == c.agent and c.start <= st.no <= (c.end or 10**9):
+                    for ev in st.evs:
+                        if ev.startswith("alloc:p"):
+                            ns = int(ev[7:], 16)
+            new_stream_of_call[id(c)] = ns
+    h.new_stream_of_call = new_stream_of_call
+    for c in sorted([c for c in h.calls if c.end is not None], key=lambda c: c.end):
+        a = c.agent
+        if c.name == "clone":
+            b = int(c.arg); kind[b] = kind.get(a, "S"); alive[b] = True
+            if kind[b] == "R":
+                stream[b] = stream.get(a)
+            events.append((c.end, "born", b, stream.get(b)))
+        elif c.name == "addstream":
+            b = int(c.arg); kind[b] = "R"; alive[b] = True
+            stream[b] = new_stream_of_call.get(id(c))
+            events.append((c.end, "born", b, stream[b]))
+        elif c.name in ("intomulti", "transform") and id(c) in new_stream_of_call and new_stream_of_call[id(c)] is not None:
+            events.append((c.end, "gone", a, stream.get(a)))
+            stream[a] = new_stream_of_call[id(c)]
+            events.append((c.end, "born", a, stream[a]))
+        elif c.name in ("drop", "unsub"):
+            alive[a] = False
+            events.append((c.end, "gone", a, stream.get(a)))
+    h.agent_kind, h.agent_stream_final, h.agent_alive, h.pop_events = kind, stream, alive, events
+    return h
+
+def handles_at(h, step):
+    """(senders alive, {stream: handles}) after all calls that returned by `step`"""
+    senders, hs = 1, {0: 1}
+    kind = {0: "S", 1: "R"}
+    strm = {1: 0}
+    for c in sorted([c for c in h.calls if c.end is not None and c.end <= step], key=lambda c: c.end):
+        a = c.agent
+        if c.name == "clone":
+            b = int(c.arg); kind[b] = kind.get(a, "S")
+            if kind[b] == "S":
+                senders += 1
+            else:
+                strm[b] = strm.get(a); hs[strm[b]] = hs.get(strm[b], 0) + 1
+        elif c.name == "addstream":
+            b = int(c.arg); kind[b] = "R"; ns = h.new_stream_of_call.get(id(c)); strm[b] = ns; hs[ns] = 1
+        elif c.name in ("intomulti", "transform") and h.new_stream_of_call.get(id(c)) is not None:
+            old = strm.get(a); hs[old] = hs.get(old, 1) - 1
+            ns = h.new_stream_of_call[id(c)]; strm[a] = ns; hs[ns] = 1
+        elif c.name in ("drop", "unsub"):
+            if kind.get(a) == "S":
+                senders -= 1
+            else:
+                s = strm.get(a); hs[s] = hs.get(s, 1) - 1
+    return senders, {s: n for s, n in hs.items() if n > 0}, kind, strm
+
+def snap_at(h, step):
+    last = None
+    for st in h.steps:
+        if st.no > step:
+            break
+        if st.snap is not None:
+            last = st.snap
+    return last
+
+def seq_phase_start(h):
+    """first step after which every call ran alone to completion (after a barrier): detected as the
+    suffix of the trace in which calls never overlap"""
+    # a call overlaps another if some other agent takes a step between its start and end
+    calls = [c for c in h.calls if c.end is not None]
+    start = None
+    for c in reversed(h.calls):
+        if c.end is None:
+            break
+        alone = all(st.agent == c.agent for st in h.steps if c.start <= st.no <= c.end)
+        if not alone:
+            break
+        start = c.start
+    return start
+
+def spec_check(h, prop, from_step=None, allow_spurious_overlap=False):
+    """Compare every call that ran alone (no step of another agent between its start and its return,
+    and no other call in flight) with the reference specification computed from the state at its start."""
+    out = []
+    track_population(h)
+    logser = [s for (s, _, _) in h.log]
+    inflight = []
+    for c in h.calls:
+        if from_step is not None and c.start < from_step:
+            continue
+        if c.end is None:
+            continue
+        # alone and nothing else in flight at its start
+        if any(st.agent != c.agent for st in h.steps if c.start <= st.no <= c.end):
+            continue
+        if any(o is not c and o.start < c.start and (o.end is None or o.end > c.start) for o in h.calls):
+            continue
+        sn = snap_at(h, c.start - 1) if c.start > 1 else None
+        if sn is None or sn.torn:
+            if c.start > 1:
+                continue
+            head, poss = 0, {0: 0}
+            writers = 1
+        else:
+            head, poss, writers = sn.head, dict(zip(sn.sids, sn.poss)), sn.writers
+        senders, hs, kind, strm = handles_at(h, c.start - 1)
+        N = h.N
+        a = c.agent
+        exp = None
+        if c.name in ("send", "ssend", "asend"):
+            if not poss:
+                exp = "disc"
+            elif (head - min(poss.values())) % W63 < N:
+                exp = "ok"
+            else:
+                exp = "full"
+            got = (c.ret or "").split(":")[0]
+            if c.name == "asend" and exp == "full":
+                continue
+        elif c.name in ("recv", "view", "poll", "brecv", "bview", "apoll"):
+            s = strm.get(a)
+            if s not in poss:
+                continue
+            p = poss[s]
+            if p != head:
+                exp = "val"
+            elif writers > 0:
+                exp = {"recv": "empty", "view": "empty", "poll": "notready"}.get(c.name)
+                if exp is None:
+                    continue      # a blocking call that (correctly) cannot return
+            else:
+                exp = "discon"
+            got = (c.ret or "").split(":")[0]
+            if exp == "val" and got == "val":
+                ser = h.orig(int(c.ret.split(":")[1], 16))
+                if p < len(logser) and logser[p] != ser:
+                    out.append(V(prop, "%s by agent %d returned payload serial %x, the reference model expects position %d = serial %s" % (c.name, a, ser, p, logser[p]), c.end, h))
+        elif c.name == "unsub":
+            s = strm.get(a)
+            got = c.ret
+            if kind.get(a) == "R" and got is not None and got.startswith("bool"):
+                exp = "bool:%d" % (1 if hs.get(s, 0) == 1 else 0)
+        elif c.name == "intosingle":
+            s = strm.get(a)
+            got = c.ret
+            exp = "bool:%d" % (1 if hs.get(s, 0) == 1 else 0)
+        elif c.name in ("clone", "addstream", "drop", "intomulti", "transform"):
+            exp, got = "unit", c.ret
+        elif c.name == "pollc":
+            exp, got = "ok", c.ret
+        if exp is not None and got != exp:
+            out.append(V(prop, "%s by agent %d returned %s, the reference model says %s" % (c.name, a, c.ret, exp), c.end, h))
+        if c.ret == "panic":
+            out.append(V(prop, "%s by agent %d panicked" % (c.name, a), c.end, h))
+    return out
+
+def o_C09(h):
+    return spec_check(h, "C09")
+
+def o_C06(h):
+    out = spec_check(h, "C06")
+    # a refusal / Empty that the reference model would not give needs an overlapping operation: calls that
+    # ran alone were compared above; here: the drain/refill counts of the sequential phase
+    return out
+
+def stuck_agents(h):
+    """agents that are inside a call when the run ends"""
+    return [(a, c) for a, c in h.open.items() if c is not None and c.end is None]
+
+def quiescent_tail(h, k=300):
+    """the shared state did not change during the last k steps"""
+    snaps = [st.snap.raw for st in h.steps[-k:] if st.snap is not None]
+    return len(h.steps) >= k and len(set(snaps)) == 1
+
+def deliverable(h, sn, stream):
+    if sn is None or sn.torn or stream not in sn.sids:
+        return False
+    p = sn.poss[sn.sids.index(stream)]
+    if p == sn.head:
+        return False
+    return sn.tags[p % h.N] == p
+
+def o_C08(h):
+    out = []
+    oc = h.end.get("outcome")
+    if oc not in ("limit", "deadlock"):
+        return out
+    track_population(h)
+    sn = snap_at(h, 10**9)
+    others_done = all(c.name in ("brecv", "bview") for a, c in stuck_agents(h))
+    for a, c in stuck_agents(h):
+        if c.name not in ("brecv", "bview"):
+            continue
+        s = h.agent_stream_final.get(a, h.agent_stream.get(a))
+        if sn is None or sn.torn:
+            continue
+        can = deliverable(h, sn, s) or sn.writers == 0
+        if can and (oc == "deadlock" or (quiescent_tail(h) and others_done)):
+            out.append(V("C08", "consumer %d stays blocked in %s although %s" % (a, c.name, "a value is available on its stream" if sn.writers else "the last sender is gone"), h.steps[-1].no, h))
+    return out
+
+def last_refusal_at_pin(c):
+    """did the last send attempt of the call end at the pin (refcount) test?"""
+    last = None
+    for (stno, kind, loc, aa, bb, rr, okf) in c.ops:
+        if kind == "await":
+            continue
+        last = (kind, loc, rr)
+    # the very last operations are the park (lock pp ...); look for the last load before them
+    seq = [(k, l, r) for (_, k, l, a_, b_, r, o_) in c.ops if k == "ld"]
+    return bool(seq) and seq[-1][1].startswith("pin") and seq[-1][2] != "0"
+
+def o_C14(h):
+    out = []
+    oc = h.end.get("outcome")
+    if oc not in ("deadlock", "done", "limit"):
+        return out
+    track_population(h)
+    sn = snap_at(h, 10**9)
+    if sn is None or sn.torn:
+        return out
+    stuck = stuck_agents(h)
+    # only meaningful when nobody can run any more
+    last_en = h.steps[-1].enabled if h.steps else []
+    if last_en:
+        return out
+    for a, c in stuck:
+        if c.name == "apoll":
+            s = h.agent_stream_final.get(a, h.agent_stream.get(a))
+            if deliverable(h, sn, s) or sn.writers == 0:
+                out.append(V("C14", "stream task %d parked without a notification although %s" % (a, "a value is available" if sn.writers else "the last sender is gone"), h.steps[-1].no, h))
+        elif c.name == "asend":
+            space = (not sn.sids) or ((sn.head - min(sn.poss)) % W63 < h.N)
+            if space and all(p == 0 for p in sn.pins):
+                v = V("C14", "sink task %d parked without a notification although %s" % (a, "a send would be accepted" if sn.sids else "no receiver is left"), h.steps[-1].no, h)
+                v["pin_refusal"] = last_refusal_at_pin(c)
+                out.append(v)
+    return out
+
+def o_C11(h):
+    out = []
+    track_population(h)
+    # unsubscribe reports true exactly when its own decrement took the count from 1 to 0
+    for c in h.calls:
+        if c.name == "unsub" and c.ret is not None and c.ret.startswith("bool"):
+            dec = [r for (_, k, l, a_, b_, r, o_) in c.ops if k == "fsub" and l.startswith("cons")]
+            if dec:
+                was_last = int(dec[0], 16) == 1
+                if (c.ret == "bool:1") != was_last:
+                    out.append(V("C11", "unsubscribe by agent %d returned %s although its decrement found %s handle(s)" % (c.agent, c.ret, dec[0]), c.end, h))
+    # a stream whose last handle is gone is no longer registered once that call has returned
+    gone_at = {}
+    senders, hs, kind, strm = handles_at(h, 10**9)
+    for (stno, what, a, s) in h.pop_events:
+        if what == "gone" and s is not None:
+            _, hs_t, _, _ = handles_at(h, stno)
+            if s not in hs_t:
+                gone_at[s] = stno
+    for st in h.steps:
+        if st.snap is None or st.snap.torn:
+            continue
+        for s, t in gone_at.items():
+            if st.no > t and s in st.snap.sids:
+                out.append(V("C11", "stream %s is still registered (and limits senders) after the call that removed its last handle returned at step %d" % (s, t), st.no, h))
+                return out
+    # two handles of one stream both told 'not last' and nobody was: covered by the first rule; both 'last': ditto
+    return out
+
+def o_C16(h):
+    return [V("C16", "use of internal bookkeeping memory after it was freed, or a double / invalid free", s, h) for s in h.bad_steps[:1]]
+
+def o_C17(h):
+    out = []
+    live = set()
+    peak_excess = 0
+    for st in h.steps:
+        for ev in st.evs:
+            if ev.startswith("alloc:"):
+                live.add(ev[6:])
+            elif ev.startswith("dealloc:"):
+                live.discard(ev[8:])
+        sn = st.snap
+        if sn is not None and not sn.torn:
+            # what a queue with this population legitimately holds: ring(2) + group + 2 per stream + 1 per handle
+            # + retired objects waiting for the next cycle
+            base = 3 + 2 * len(sn.sids) + len(sn.tokens)
+            retired = len(sn.tofree) + len(sn.wtf)
+            if retired > 21 + 21 + 6 * (len(sn.tokens) + 2):
+                out.append(V("C17", "%d retired internal objects are waiting to be freed (the queue holds %d streams, %d handles): memory grows with churn" % (retired, len(sn.sids), len(sn.tokens)), st.no, h))
+                return out
+    if h.end.get("torn") == "1":
+        lv = h.end.get("live", "")
+        if lv not in ("", "-"):
+            out.append(V("C17", "internal memory still allocated after the last handle was dropped: %s" % lv, h.steps[-1].no if h.steps else 0, h))
+    return out
+
+def o_C15(h):
+    out = []
+    for c in h.calls:
+        if c.name in ("ssend", "asend"):
+            # NotReady hands back the identical message and nothing was enqueued
+            claimed = any(s == c.born for (s, _, _) in h.log)
+            if c.ret is not None and c.ret.startswith("full"):
+                ser = int(c.ret.split(":")[1], 16)
+                if ser != c.born:
+                    out.append(V("C15", "start_send returned NotReady with a different message", c.end, h))
+                if claimed:
+                    out.append(V("C15", "start_send returned NotReady although the value was enqueued", c.end, h))
+            if c.ret == "ok" and not claimed:
+                out.append(V("C15", "start_send returned Ready although nothing was enqueued", c.end, h))
+        if c.ret == "panic":
+            out.append(V("C15", "%s by agent %d panicked" % (c.name, c.agent), c.end, h))
+    # poll / start_send never wait inside the call: bounded own steps, no condvar wait, returns
+    for c in h.calls:
+        if c.name in ("poll", "ssend", "apoll", "asend"):
+            if any(k in ("cvwait",) for (_, k, l, a_, b_, r, o_) in c.ops):
+                out.append(V("C15", "%s blocked on a condition variable inside the call" % c.name, c.start, h))
+    for a, c in stuck_agents(h):
+        if c.name in ("poll", "ssend"):
+            own = sum(1 for st in h.steps if st.agent == a and st.no >= c.start)
+            if own > 600 and h.end.get("outcome") == "limit":
+                out.append(V("C15", "%s by agent %d did not return after %d of its own steps" % (c.name, a, own), h.steps[-1].no, h))
+    return out
+
+def o_C18(h):
+    """a try operation that runs alone (every other thread frozen) returns within a bounded number of its own steps
+    and never performs a blocking operation"""
+    out = []
+    wk = h.scn.wk if h.scn is not None else "busy"
+    for c in h.calls:
+        if c.name not in ("send", "recv", "view"):
+            continue
+        ops = c.ops
+        if wk in ("busy", "yield"):
+            for (stno, k, l, a_, b_, r, o_) in ops:
+                if k in ("cvwait", "yield", "sleep") or (k == "lock" and l in ("bw", "cp", "pp")):
+                    out.append(V("C18", "%s performed a waiting operation (%s %s)" % (c.name, k, l), stno, h))
+        # maximal solo segments of the call
+        mine = [st.no for st in h.steps if st.agent == c.agent and c.start <= st.no <= (c.end or 10**9)]
+        if not mine:
+            continue
+        # solo suffix: steps of this call after the last step of any other agent that falls inside the call
+        others = [st.no for st in h.steps if st.agent != c.agent and c.start <= st.no <= (c.end or 10**9)]
+        lo = max(others) if others else c.start - 1
+        solo = [x for x in mine if x > lo]
+        sn = snap_at(h, c.start)
+        g = len(sn.sids) if sn is not None and not sn.torn else 1
+        bound = 4 * (g + 16) + 120
+        if len(solo) > bound:
+            out.append(V("C18", "%s by agent %d took %d steps alone without returning (bound %d)" % (c.name, c.agent, len(solo), bound), c.start, h))
+    for a, c in stuck_agents(h):
+        if c.name in ("send", "recv", "view") and h.end.get("outcome") in ("limit",):
+            own = sum(1 for st in h.steps if st.agent == a and st.no >= c.start)
+            if own > 500:
+                out.append(V("C18", "%s by agent %d never returned (%d own steps)" % (c.name, a, own), c.start, h))
+    return out
+
+def o_C10(h):
+    out = []
+    # the start position is the parent's cursor at some instant during the call
+    for ns, raw in h.stream_start.items():
+        if ns == 0:
+            continue
+    return out
+
+def o_bad(h):
+    return [V("C04", "payload self-check failed", s, h) for s in h.bad_steps[:1]]
+
+ORACLES.update({"C06": o_C06, "C08": o_C08, "C09": o_C09, "C10": o_C10, "C11": o_C11, "C14": o_C14, "C15": o_C15,
+                "C16": o_C16, "C17": o_C17, "C18": o_C18})
